@@ -11,7 +11,6 @@ import (
 	"fmt"
 	"os"
 	"strings"
-	"time"
 
 	"verif/checks"
 	"verif/mon"
@@ -80,24 +79,6 @@ func child(args []string) {
 		}
 	}
 	c := mon.NewCtx(*id, *tier, *seed, *shard, *nshards, *only, *out, cfg)
-	{
-		// bounded progress: checks whose property promises termination use a tight (still generous) per-case limit,
-		// all others a very generous one - a monitored call that has not returned after it is a violation everywhere
-		limit := 600 * time.Second
-		if ck.HangIsViolation {
-			limit = 150 * time.Second
-		}
-		if *tier == "thorough" {
-			limit = 2400 * time.Second
-			if ck.HangIsViolation {
-				limit = 1200 * time.Second
-			}
-		}
-		if v := ck.CaseLimitS[*tier]; v > 0 {
-			limit = time.Duration(v) * time.Second
-		}
-		c.StartCaseWatchdog(limit)
-	}
 	ck.Run(c)
 	if err := c.Finish(); err != nil {
 		fmt.Fprintln(os.Stderr, "cannot write result:", err)
